@@ -116,6 +116,20 @@ def derivePath (P : Prims Pt) (nd : Node) : List Nat → Option Node
 def generateChildren (P : Prims Pt) (nd : Node) (a b : Nat) : Option (List Node) :=
   (List.range' a (b - a)).mapM (ckd P nd)
 
+/-- Python's `range(a, b, step)` for `step ≠ 0` (as a list of integers) -/
+def pyRange (a b step : Int) : List Int :=
+  let count : Nat :=
+    if step > 0 then (if a < b then ((b - a + step - 1) / step).toNat else 0)
+    else if step < 0 then (if a > b then ((a - b + (-step) - 1) / (-step)).toNat else 0)
+    else 0
+  (List.range count).map fun (j : Nat) => a + step * Int.ofNat j
+
+/-- `generate_children(interval)` for every tuple `range(*interval)` accepts: `(b,)`, `(a, b)`, `(a, b, step)`;
+`step = 0` is a `ValueError`, a negative index an `OverflowError` of `int_to_big_endian` -/
+def generateChildrenStep (P : Prims Pt) (nd : Node) (a b step : Int) : Option (List Node) :=
+  if step = 0 then none
+  else (pyRange a b step).mapM fun i => if i < 0 then none else ckd P nd i.toNat
+
 /-- `_serialize(key, version)` -/
 def serializeWith (nd : Node) (key : Bytes) (version : Nat) : Option Bytes :=
   (toBytesBE 4 version).bind fun v4 =>
